@@ -289,3 +289,20 @@ def include_cases():
         return {"confirmed": True, "input": {"declarations": decls, "markers": marks}, "actual": {"included": res[1]}, "expected": {"written in place": res[0]},
                 "how": "real parser: the same declarations written in the module and pulled in with INCLUDE"}
     return None
+
+
+def common_cases():
+    """one comment on a COMMON statement with several blocks documents every block of the statement (following and preceding styles)"""
+    for nblocks in (1, 2, 3):
+        blocks = " ".join(f"/blk{k}/ v{k}" for k in range(nblocks))
+        for style, lines in (("following", [f"  common {blocks}", "  !! commonw1 commonw2"]), ("preceding", ["  !> commonw1 commonw2", f"  common {blocks}"])):
+            src = "subroutine s()\n" + "".join(f"  integer :: v{k}\n" for k in range(nblocks)) + "\n".join(lines) + "\n  integer :: after\n  !! afterw1\nend subroutine s\n"
+            try:
+                f = realrun.parse_source(src, predocmark=">")
+                got = [(c.name, " ".join(c.doc_list).split()) for c in f.subroutines[0].common]
+            except Exception as e:
+                got = f"{type(e).__name__}: {e}"
+            want = [(f"blk{k}", ["commonw1", "commonw2"]) for k in range(nblocks)]
+            if got != want:
+                return {"confirmed": True, "input": {"source": src}, "actual": got, "expected": want, "how": f"real parser: doc_list of the blocks of one COMMON statement ({style} comment, {nblocks} blocks)"}
+    return None
